@@ -233,6 +233,10 @@ func Dump(ctx context.Context, db *sql.DB, o DumpOptions) (Catalog, error) {
 }
 
 func normExpr(s string) string {
+	// a default spelled as a double-quoted token is the same string as its single-quoted spelling.
+	if t := strings.TrimSpace(s); len(t) >= 2 && t[0] == '"' && t[len(t)-1] == '"' && !strings.Contains(t[1:len(t)-1], "\"") {
+		return "'" + strings.ReplaceAll(t[1:len(t)-1], "'", "''") + "'"
+	}
 	s = reWS.ReplaceAllString(strings.TrimSpace(s), " ")
 	s = strings.NewReplacer("`", "", "\"", "", "( ", "(", " )", ")").Replace(s)
 	// drop redundant outer parentheses
